@@ -161,6 +161,69 @@ func runC14(w *World, r *Report) {
 		}
 	}
 
+	// ---- re-chunking invariance needs the result to be built by accumulation alone: (a) text fields are what the
+	// builder returns — no transforming call (Trim*, Replace, ToLower …) is applied to accumulated text, because a
+	// partial result would lose what is interior to the whole; (b) no field of the result is computed from OTHER fields of
+	// the same struct after the accumulation (a derived value frozen into a partial result is taken for a reported one by
+	// the next concatenation)
+	r.Rule("C14.accumulate-only", "in the concat closure: text accumulated in a strings.Builder is stored as Builder.String() returns it; no store to a field of a struct derives from loads of other fields of that same struct type", 2)
+	{
+		nText, nField := 0, 0
+		for _, fn := range closure {
+			// (a)
+			instrs(fn, func(in ssa.Instruction) {
+				c, ok := in.(*ssa.Call)
+				if !ok || calleeFullName(c) != "(*strings.Builder).String" {
+					return
+				}
+				nText++
+				bad := ""
+				for _, ref := range *c.Referrers() {
+					if ci, ok := ref.(ssa.CallInstruction); ok {
+						name := calleeFullName(ref)
+						if strings.HasPrefix(name, "strings.") {
+							bad = name
+						}
+						_ = ci
+					}
+				}
+				r.Check(bad == "", "C14.accumulate-only", fmt.Sprintf("%s: accumulated text #%d is stored as built", w.fname(fn), nText), c.Pos(), "Builder.String() used as it is", "the accumulated text is passed through "+bad+" before it is stored: what that call removes or rewrites at the ends of a PARTIAL result is interior to the whole — concatenating a prefix first and then the rest gives a different string than concatenating everything at once (white space at a fragment boundary inside a JSON argument string)")
+			})
+			// (b)
+			for _, fw := range fieldWrites(fn) {
+				if fw.kind != "store" || fw.owner == nil {
+					continue
+				}
+				fs := map[*types.Var]bool{}
+				fieldsReadBy(fw.val, 0, fs)
+				var others []string
+				sameToo := false
+				for f := range fs {
+					if fieldOwner(w, f) == fw.owner.Obj() {
+						if sameField(f, fw.field) {
+							sameToo = true
+						} else {
+							others = append(others, f.Name())
+						}
+					}
+				}
+				if len(others) == 0 {
+					continue
+				}
+				nField++
+				sort.Strings(others)
+				_ = sameToo
+				r.Fail("C14.accumulate-only", fmt.Sprintf("%s: %s.%s is computed from sibling fields", w.fname(fn), fw.owner.Obj().Name(), fw.field.Name()), fw.in.Pos(), fmt.Sprintf("the stored value reads %s of the same struct: a value derived after the accumulation is frozen into a partial result and the next concatenation takes it for a reported one — all-at-once and prefix-then-rest disagree (usage {P:10},{C:2},{C:5},{C:9}: total 19 at once, 12 or 15 staged)", strings.Join(others, ", ")))
+			}
+		}
+		if nField == 0 {
+			r.OK("C14.accumulate-only", fmt.Sprintf("no field of a result struct is derived from sibling fields in the %d functions of the concat closure", len(closure)), closure[0].Pos(), "per-field accumulation only")
+		}
+		if nText < 1 {
+			r.Fail("C14.accumulate-only", "Builder.String() results in the concat closure", closure[0].Pos(), "none found (tool-call arguments / content expected)")
+		}
+	}
+
 	// ---- reflect-zero
 	r.Rule("C14.reflect-zero", "no possibly nil reflect.Type / zero reflect.Value is used unguarded in the concat closure", 2)
 	exc := map[string]string{}
